@@ -329,7 +329,7 @@ fn run_c04(args: &Args) -> Report {
 
 const INSERTABLE: &[&str] = &[
     "fn", "pub", "type", "const", "import", "use", "let", "case", "if", "as", "opaque", "assert", "todo", "panic", "external",
-    "x", "Xy", "_d", "1", "1.5", "\"s\"", "\"\\\\\"", "\"a\\\\\"", "+", "-", "*", "/", "<", ">", "<=", ">=", "==", "!=", "&&", "||", "|>", "<>", ".", "..",
+    "x", "Xy", "_d", "1", "1.5", "\"s\"", "\"\\\\\"", "\"a\\\\\"", "\"\\\\\\\"\"", "\"\\\"\"", "\"a\\\\\\\"b\\\\\"", "+", "-", "*", "/", "<", ">", "<=", ">=", "==", "!=", "&&", "||", "|>", "<>", ".", "..",
     "->", "<-", "|", ":", ",", "=", "!", "%", "@", ")", "]", ">>", "$", "~", "ß", "\r",
 ];
 
@@ -518,7 +518,8 @@ fn tok_class(t: &str) -> &'static str {
         "fn" | "pub" | "type" | "const" | "import" => "item-keyword",
         "use" | "let" | "case" | "if" | "as" | "opaque" | "assert" | "todo" | "panic" | "external" => "keyword",
         "x" | "Xy" | "_d" => "identifier",
-        "1" | "1.5" | "\"s\"" => "literal",
+        "1" | "1.5" => "literal",
+        t if t.starts_with('"') => "literal",
         ")" | "]" | ">>" => "closer",
         "," | ":" | "." | ".." | "->" | "<-" | "|" | "=" => "separator",
         "@" => "at",
